@@ -7,7 +7,7 @@ MODEL_NAME = "Dom/ReactiveView.v"
 HARNESS = "dom"
 HARNESS_ARGS = ["c04"]
 ALLOWED_AXIOMS = []
-READY = False
+READY = True
 RUN_IMPORT = "Dom.ReactiveRun"
 IMPL_SHARDS = 8
 
@@ -79,7 +79,7 @@ def gen_view(rng, nsig, depth, lab):
 
 
 def generate(rng, tier):
-    n = 1500 if tier == "quick" else 25000
+    n = 4000 if tier == "quick" else 60000
     for _ in range(n):
         nsig = rng.choice([1, 2, 2, 3])
         view = gen_view(rng, nsig, rng.choice([1, 2, 2, 3, 3]), Lab())
